@@ -75,3 +75,23 @@ MUTANTS += [
     {"id": "C08-benign-range-from-inline-conversion", "prop": "C08", "benign": True,
      "edits": [("src/surface.rs", "range_bounds(RangeFrom { start: index_i64(self.start) }, size)", "range_bounds(RangeFrom { start: i64::try_from(self.start).unwrap_or(i64::MAX) }, size)")]},
 ]
+
+
+# ---- an exact fast path in front of the delegation (robustness round 3): the impl's own window is checked like any other ----
+_FULL = "        range_bounds(self, size)\n    }\n}\n\nmacro_rules! impl_signed_ints("
+MUTANTS += [
+    {"id": "C08-benign-full-fast-path-contains", "prop": "C08", "benign": True,
+     "edits": [("src/surface.rs", _FULL, "        if (1..=i64::MAX as usize).contains(&size) {\n            return Some((0, size));\n        }\n" + _FULL)]},
+    {"id": "C08-benign-full-fast-path-comparisons", "prop": "C08", "benign": True,
+     "edits": [("src/surface.rs", _FULL, "        if size >= 1 && size <= i64::MAX as usize {\n            return Some((0, size));\n        }\n" + _FULL)]},
+    {"id": "C08-benign-full-fast-path-else", "prop": "C08", "benign": True,
+     "edits": [("src/surface.rs", _FULL, "        if 0 < size && size <= i64::MAX as usize {\n            Some((0, size))\n        } else {\n    " + _FULL.replace("    }\n}\n\nmacro", "        }\n    }\n}\n\nmacro", 1))]},
+    {"id": "C08-benign-full-result-through-local", "prop": "C08", "benign": True,
+     "edits": [("src/surface.rs", _FULL, "        let window = " + _FULL.lstrip().replace("size)\n", "size);\n        window\n", 1))]},
+    {"id": "C08-full-fast-path-admits-empty-axis", "prop": "C08", "expect": "POST",
+     "edits": [("src/surface.rs", _FULL, "        if (0..=i64::MAX as usize).contains(&size) {\n            return Some((0, size));\n        }\n" + _FULL)]},
+    {"id": "C08-full-fast-path-window-too-long", "prop": "C08", "expect": "POST",
+     "edits": [("src/surface.rs", _FULL, "        if (1..=1024usize).contains(&size) {\n            return Some((0, size + 1));\n        }\n" + _FULL)]},
+    {"id": "C08-full-delegation-result-shifted", "prop": "C08", "expect": "POST",
+     "edits": [("src/surface.rs", _FULL, "        range_bounds(self, size).map(|(s, e)| (s + 1, e))\n    }\n}\n\nmacro_rules! impl_signed_ints(")]},
+]
